@@ -1,6 +1,7 @@
 import Martian.Model.MessageView
 import Martian.Drv.GoLib
-/-! Driver for C15: `snap`, `sections`, `decode`, `twin` (see go/internal/c15). -/
+import Martian.Model.Logging
+/-! Driver for C15: `snap`, `sections`, `decode`, `twin`, `twinx`, `twinm`, `multi`, `h1.resnap` (see go/internal/c15). -/
 namespace Martian.Drv.C15
 open Martian Martian.Go Martian.MessageView
 
@@ -81,6 +82,66 @@ def parseTrusted (s : String) : Option Trusted :=
     if [a, b, c].all (fun x => x == '0' || x == '1') then some ⟨a == '1', b == '1', c == '1'⟩ else none
   | _ => none
 
+/-! #### `twinm` / `multi`: context marks, several messages in flight -/
+section Logging
+open Martian.Logging
+
+def parseMark (s : String) : Option Mark :=
+  match s with
+  | "s" => some .skipLogging
+  | "r" => some .skipRoundTrip
+  | "a" => some .apiRequest
+  | "f" => some .forwarder
+  | _ => none
+
+def parseMarkList (s : String) : Option (List Mark) :=
+  if s = "-" then some [] else (s.splitOn "+").mapM parseMark
+
+/-- `<pre>/<post>` -/
+def parseMarks (s : String) : Option (List Mark × List Mark) :=
+  match s.splitOn "/" with
+  | [a, b] => do let a ← parseMarkList a; let b ← parseMarkList b; pure (a, b)
+  | _ => none
+
+def bit (b : Bool) : String := if b then "1" else "0"
+
+def twinm (lg : Logger) (pre post : List Mark) (t : Trusted) (m : Msg) : String :=
+  -- a request is logged on the request side: only the marks made before it count
+  let seen := Flags.init.applyAll (if m.isReq then pre else pre ++ post)
+  let final := Flags.init.applyAll (pre ++ post)
+  let r := logMsgT t lg seen.skipLogging m
+  (if r.msg == m then "same" else "differs") ++ " rec=" ++ bit r.record.isSome ++ " err=" ++ bit r.err
+    ++ " flags=" ++ bit final.skipRoundTrip ++ bit final.skipLogging ++ bit final.apiRequest
+
+/-- `L<i>` / `W<i>` -/
+def parseEv (lg : Logger) (s : String) : Option Ev :=
+  let n := (s.drop 1).toString.toNat?
+  if s.startsWith "L" then n.map fun i => .log i lg false
+  else if s.startsWith "W" then n.map .write
+  else none
+
+/-- k groups of `<mode> <link> <trusted> M…` -/
+def parseHeldMsgs : Nat → List String → Option (List (Trusted × Msg))
+  | 0, [] => some []
+  | 0, _ => none
+  | k + 1, _mode :: _link :: tr :: rest => do
+    let t ← parseTrusted tr
+    let m ← parseMsg (rest.take 15)
+    let more ← parseHeldMsgs k (rest.drop 15)
+    pure ((t, m) :: more)
+  | _, _ => none
+
+def multi (lg : Logger) (evs : List Ev) (tms : List (Trusted × Msg)) : String :=
+  let ms := tms.map (·.2)
+  let written := (run .fresh (World.ofMsgs ms) evs).2
+  let w := written.map fun p => if ms[p.1]? == some p.2 then "same" else "differs"
+  let errs := tms.zipIdx.map fun (tm, i) =>
+    if evs.any (fun e => match e with | .log j _ _ => j == i | _ => false)
+    then bit (logMsgT tm.1 lg false tm.2).err else "0"
+  "w=" ++ ",".intercalate w ++ " err=" ++ String.join errs
+
+end Logging
+
 def step (s : St) (toks : List String) : St × String :=
   match toks with
   | "snap" :: _mode :: skip :: cts :: rest =>
@@ -108,6 +169,22 @@ def step (s : St) (toks : List String) : St × String :=
     | some lg, some m =>
       let r := logMsg lg (skip == "1") m
       (s, (if r.1 == m then "same" else "differs") ++ " rec=" ++ (if r.2.isSome then "1" else "0"))
+    | _, _ => (s, "bad-op")
+  | "twinm" :: l :: o1 :: o2 :: mk :: _mode :: tr :: rest =>
+    match parseLogger l o1 o2, parseMarks mk, parseTrusted tr, parseMsg rest with
+    | some lg, some (pre, post), some t, some m => (s, twinm lg pre post t m)
+    | _, _, _, _ => (s, "bad-op")
+  | "multi" :: l :: o1 :: o2 :: sched :: k :: rest =>
+    match parseLogger l o1 o2, k.toNat? with
+    | some lg, some k =>
+      -- "conc" = all messages logged at once, then all written: any linearisation gives the same lines
+      let evs : Option (List Logging.Ev) :=
+        if sched = "conc" then
+          some ((List.range k).map (fun i => Logging.Ev.log i lg false) ++ (List.range k).map Logging.Ev.write)
+        else (sched.splitOn ",").mapM (parseEv lg)
+      match evs, parseHeldMsgs k rest with
+      | some evs, some tms => (s, multi lg evs tms)
+      | _, _ => (s, "bad-op")
     | _, _ => (s, "bad-op")
   | "twinx" :: l :: o1 :: o2 :: skip :: _mode :: tr :: rest =>
     match parseLogger l o1 o2, parseTrusted tr, parseMsg rest with
